@@ -438,6 +438,15 @@ def random_spec(rng, **o):
             s.pc_features[rng.permutation(nrows)[:g('feat_nan_rows', 0)]] = np.nan      # stored, but undefined values
         if feat != 'dense':
             ind = np.stack([rng.permutation(nc)[:nloc] for _ in range(nt)]).astype(np.int64)
+            fp = g('feat_pad', None)
+            if fp and nloc >= 2 and np.dtype(g('dtype_ind', 'int32')).kind == 'i':
+                # unused slots are padded with -1 (the stored values there mean nothing): scattered, or a whole column
+                if fp == 'column' and nloc >= 3:
+                    ind[:, 1 + int(rng.integers(0, nloc - 2))] = -1
+                else:
+                    pad = rng.random(ind.shape) < 0.3
+                    pad[:, 0] = False
+                    ind[pad] = -1
             s.pc_feature_ind = ind.astype(g('dtype_ind', 'int32'))
         s.pc_feature_spike_ids = rows
     if g('tfeatures', False):
